@@ -633,7 +633,7 @@ fn expand_regex_assertion(value_expr: &TokenStream, pattern: &PatternRegex) -> T
             use ::assert_struct::Like;
             let __assert_struct_re = ::assert_struct::__macro_support::Regex::new(#pattern_str)
                 .expect(concat!("Invalid regex pattern: ", #pattern_str));
-            if !#value_expr.like(&__assert_struct_re) {
+            if !(#value_expr).like(&__assert_struct_re) {
                 #error_push
             }
         }
@@ -653,7 +653,7 @@ fn expand_like_assertion(value_expr: &TokenStream, pattern: &PatternLike) -> Tok
     quote_spanned! {span=>
         {
             use ::assert_struct::Like;
-            if !#value_expr.like(&#pattern_expr) {
+            if !(#value_expr).like(&#pattern_expr) {
                 #error_push
             }
         }
